@@ -1,5 +1,318 @@
-/- Helper lemmas for C09. -/
+/- Helper lemmas for C09: the job-flag invariant (`JobsWF`) through every event. -/
 import Pk.Model.Manager
+import Pk.Proofs.MgrSettleFrame
 namespace Pk.Proofs.MgrSettle
 open Pk.Mgr
+
+/-- same body as `Pk.Props.C09.JobsWF` (that definition unfolds to this one) -/
+def JobsWF (s : St) : Prop :=
+  (s.tag = true ↔ s.jTag.isSome) ∧ (s.merge = true ↔ s.jMerge.isSome) ∧
+  (s.convert = true ↔ s.jConv.isSome) ∧ (s.queue ≠ [] ↔ s.jImport.isSome)
+
+/-! ### the job starters keep flag and record in step -/
+
+theorem startTagging_wf (s : St) (c) (h : s.tag = true ↔ s.jTag.isSome) :
+    ((startTagging s c).tag = true ↔ (startTagging s c).jTag.isSome) := by
+  unfold startTagging
+  repeat' split
+  all_goals simp_all [getIndexesCopy]
+
+theorem startMerge_wf (s : St) (h : s.merge = true ↔ s.jMerge.isSome) :
+    ((startMerge s).merge = true ↔ (startMerge s).jMerge.isSome) := by
+  unfold startMerge
+  repeat' split
+  all_goals simp_all [getIndexesCopy]
+
+theorem startConverter_wf (s : St) (h : s.convert = true ↔ s.jConv.isSome) :
+    ((startConverter s).convert = true ↔ (startConverter s).jConv.isSome) := by
+  unfold startConverter
+  split
+  · exact h
+  · dsimp only
+    split
+    · exact h
+    · dsimp only [getIndexesCopy]; simp
+
+@[simp] theorem startImport_jImport_isSome (s : St) : (startImport s).jImport.isSome = true := rfl
+
+theorem JobsWF.congr {s X : St} (h : JobsWF s) (e1 : X.tag = s.tag) (e2 : X.jTag = s.jTag)
+    (e3 : X.merge = s.merge) (e4 : X.jMerge = s.jMerge) (e5 : X.convert = s.convert)
+    (e6 : X.jConv = s.jConv) (e7 : X.queue = s.queue) (e8 : X.jImport = s.jImport) : JobsWF X := by
+  unfold JobsWF; rw [e1, e2, e3, e4, e5, e6, e7, e8]; exact h
+
+theorem J1_of_eq {s X : St} (h : s.tag = true ↔ s.jTag.isSome) (e1 : X.tag = s.tag) (e2 : X.jTag = s.jTag) :
+    (X.tag = true ↔ X.jTag.isSome) := by rw [e1, e2]; exact h
+theorem J2_of_eq {s X : St} (h : s.merge = true ↔ s.jMerge.isSome) (e1 : X.merge = s.merge) (e2 : X.jMerge = s.jMerge) :
+    (X.merge = true ↔ X.jMerge.isSome) := by rw [e1, e2]; exact h
+theorem J3_of_eq {s X : St} (h : s.convert = true ↔ s.jConv.isSome) (e1 : X.convert = s.convert) (e2 : X.jConv = s.jConv) :
+    (X.convert = true ↔ X.jConv.isSome) := by rw [e1, e2]; exact h
+theorem J4_of_eq {s X : St} (h : s.queue ≠ [] ↔ s.jImport.isSome) (e1 : X.queue = s.queue) (e2 : X.jImport = s.jImport) :
+    (X.queue ≠ [] ↔ X.jImport.isSome) := by rw [e1, e2]; exact h
+
+/-- proves `JobsWF X` from `h : JobsWF s` when `X` differs from `s` only in other fields -/
+syntax "jobs_frame " term : tactic
+macro_rules | `(tactic| jobs_frame $h) => `(tactic|
+  exact JobsWF.congr $h (by frame) (by frame) (by frame) (by frame) (by frame) (by frame) (by frame) (by frame))
+
+theorem jobsWF_finish3 (X : St) (c) (h : JobsWF X) : JobsWF (startMerge (startConverter (startTagging X c))) := by
+  obtain ⟨h1, h2, h3, h4⟩ := h
+  refine ⟨?_, ?_, ?_, ?_⟩
+  · simpa using startTagging_wf X c h1
+  · exact startMerge_wf _ (by simpa using h2)
+  · simpa using startConverter_wf _ (by simpa using h3)
+  · simpa using h4
+
+theorem jobsWF_finish2 (X : St) (c) (h : JobsWF X) : JobsWF (startConverter (startTagging X c)) := by
+  obtain ⟨h1, h2, h3, h4⟩ := h
+  refine ⟨?_, ?_, ?_, ?_⟩
+  · simpa using startTagging_wf X c h1
+  · simpa using h2
+  · simpa using startConverter_wf _ (by simpa using h3)
+  · simpa using h4
+
+theorem jobsWF_startTagging (X : St) (c) (h : JobsWF X) : JobsWF (startTagging X c) := by
+  obtain ⟨h1, h2, h3, h4⟩ := h
+  exact ⟨startTagging_wf X c h1, by simpa using h2, by simpa using h3, by simpa using h4⟩
+
+theorem jobsWF_startConverter (X : St) (h : JobsWF X) : JobsWF (startConverter X) := by
+  obtain ⟨h1, h2, h3, h4⟩ := h
+  exact ⟨by simpa using h1, by simpa using h2, startConverter_wf X h3, by simpa using h4⟩
+
+theorem jobsWF_release (X : St) (fs) (h : JobsWF X) : JobsWF (release X fs) := by
+  simpa [JobsWF] using h
+
+/-! ### per event -/
+
+theorem jobsWF_importPcaps (s : St) (names) (st : Started) (h : JobsWF s) :
+    JobsWF (step s (.importPcaps names) st).1 := by
+  simp only [step]
+  split
+  · exact h
+  · dsimp only
+    split
+    · simp_all [JobsWF]
+    · simp_all [JobsWF]
+
+theorem jobsWF_importDone (s : St) (a b c d e f) (st : Started) (h : JobsWF s) :
+    JobsWF (step s (.importDone a b c d e f) st).1 := by
+  simp only [step]
+  split
+  · exact h
+  · rename_i jnext held hj
+    dsimp only
+    apply jobsWF_finish3
+    obtain ⟨h1, h2, h3, h4⟩ := h
+    split
+    · refine ⟨?_, ?_, ?_, ?_⟩
+      · split <;> simpa using h1
+      · split <;> simpa using h2
+      · split <;> simpa using h3
+      · split <;> simp_all
+    · refine ⟨?_, ?_, ?_, ?_⟩
+      · split <;> simpa using h1
+      · split <;> simpa using h2
+      · split <;> simpa using h3
+      · split <;> simp_all
+
+theorem jobsWF_tagDone (s : St) (a b) (st : Started) (h : JobsWF s) :
+    JobsWF (step s (.tagDone a b) st).1 := by
+  simp only [step]
+  split
+  · exact h
+  · rename_i jn snap held hj
+    split
+    · exact h.congr rfl rfl rfl rfl rfl rfl rfl rfl
+    · dsimp only
+      apply jobsWF_release
+      apply jobsWF_finish3
+      obtain ⟨h1, h2, h3, h4⟩ := h
+      refine ⟨?_, J2_of_eq h2 (by frame) (by frame), J3_of_eq h3 (by frame) (by frame), J4_of_eq h4 (by frame) (by frame)⟩
+      have : ∀ X : St, X.jTag = none →
+          (({ X with tag := false } : St).tag = true ↔ ({ X with tag := false } : St).jTag.isSome) := by
+        intro X hX; simp [hX]
+      apply this
+      frame
+
+theorem jobsWF_mergeDone (s : St) (a) (st : Started) (h : JobsWF s) :
+    JobsWF (step s (.mergeDone a) st).1 := by
+  simp only [step]
+  split
+  · exact h
+  · rename_i off held hj
+    dsimp only
+    apply jobsWF_release
+    obtain ⟨h1, h2, h3, h4⟩ := h
+    refine ⟨J1_of_eq h1 (by frame) (by frame), ?_, J3_of_eq h3 (by frame) (by frame), J4_of_eq h4 (by frame) (by frame)⟩
+    apply startMerge_wf
+    have : ∀ X : St, X.jMerge = none →
+        (({ X with merge := false } : St).merge = true ↔ ({ X with merge := false } : St).jMerge.isSome) := by
+      intro X hX; simp [hX]
+    apply this
+    frame
+
+theorem jobsWF_convertDone (s : St) (st : Started) (h : JobsWF s) :
+    JobsWF (step s .convertDone st).1 := by
+  simp only [step]
+  split
+  · exact h
+  · rename_i sets held hj
+    dsimp only
+    apply jobsWF_release
+    apply jobsWF_finish2
+    obtain ⟨h1, h2, h3, h4⟩ := h
+    refine ⟨J1_of_eq h1 (by frame) (by frame), J2_of_eq h2 (by frame) (by frame), ?_, J4_of_eq h4 (by frame) (by frame)⟩
+    have e1 : ∀ X : St, X.convert = false → X.jConv = none → (X.convert = true ↔ X.jConv.isSome) := by
+      intro X a b; simp [a, b]
+    apply e1 <;> frame
+
+
+/-! ### helpers that do not touch any job field -/
+
+syntax "jobs_simp " term : tactic
+macro_rules | `(tactic| jobs_simp $h) => `(tactic|
+  exact JobsWF.congr $h (by simp) (by simp) (by simp) (by simp) (by simp) (by simp) (by simp) (by simp))
+
+theorem jobsWF_foldl {β} (f : St → β → St) (hf : ∀ s x, JobsWF s → JobsWF (f s x)) (l : List β) (X : St)
+    (h : JobsWF X) : JobsWF (l.foldl f X) := by
+  induction l generalizing X with
+  | nil => exact h
+  | cons a l ih => exact ih _ (hf _ _ h)
+
+theorem jobsWF_setTag (s : St) (n t) (h : JobsWF s) : JobsWF (setTag s n t) := by jobs_simp h
+theorem jobsWF_tags (s : St) (v) (h : JobsWF s) : JobsWF { s with tags := v } := h
+theorem jobsWF_addRefBy (s : St) (a b) (h : JobsWF s) : JobsWF (addRefBy s a b) := by jobs_simp h
+theorem jobsWF_delRefBy (s : St) (a b) (h : JobsWF s) : JobsWF (delRefBy s a b) := by jobs_simp h
+theorem jobsWF_inherit (s : St) (h : JobsWF s) : JobsWF (inherit s) := by jobs_simp h
+theorem jobsWF_invDuring (s : St) (a) (h : JobsWF s) : JobsWF (invalidatedDuringTaggingJob s a) := by jobs_simp h
+theorem jobsWF_detachConv (s : St) (a b) (h : JobsWF s) : JobsWF (detachConv s a b) := by jobs_simp h
+theorem jobsWF_attachConv (s : St) (a b) (h : JobsWF s) : JobsWF (attachConv s a b).1 := by jobs_simp h
+theorem jobsWF_markUpdate (s : St) (a b c) (h : JobsWF s) : JobsWF (markUpdate s a b c).1 := by jobs_simp h
+theorem jobsWF_getIndexesCopy (s : St) (n) (h : JobsWF s) : JobsWF (getIndexesCopy s n).1 := by jobs_simp h
+
+theorem jobsWF_addTag (s : St) (a b c d) (st : Started) (h : JobsWF s) :
+    JobsWF (step s (.addTag a b c d) st).1 := by
+  simp only [step]
+  repeat' split
+  all_goals first
+    | exact h
+    | (dsimp only
+       apply jobsWF_foldl _ (fun s x hs => jobsWF_addRefBy s _ _ hs)
+       first
+        | exact jobsWF_setTag _ _ _ h
+        | exact jobsWF_startTagging _ _ (jobsWF_setTag _ _ _ h))
+
+theorem jobsWF_updQuery (s : St) (a b c) (st : Started) (h : JobsWF s) :
+    JobsWF (step s (.updQuery a b c) st).1 := by
+  simp only [step]
+  repeat' split
+  all_goals first
+    | exact h
+    | (dsimp only
+       apply jobsWF_finish2
+       apply jobsWF_invDuring
+       apply jobsWF_inherit
+       apply jobsWF_setTag
+       apply jobsWF_foldl _ (fun s x hs => jobsWF_addRefBy s _ _ hs)
+       apply jobsWF_foldl _ (fun s x hs => jobsWF_delRefBy s _ _ hs)
+       exact h)
+
+theorem jobsWF_updColor (s : St) (a b) (st : Started) (h : JobsWF s) :
+    JobsWF (step s (.updColor a b) st).1 := by
+  simp only [step]
+  repeat' split
+  all_goals first
+    | exact h
+    | exact jobsWF_setTag _ _ _ h
+
+theorem jobsWF_updName (s : St) (a b) (st : Started) (h : JobsWF s) :
+    JobsWF (step s (.updName a b) st).1 := by
+  simp only [step]
+  repeat' split
+  all_goals first
+    | exact h
+    | (dsimp only
+       apply jobsWF_foldl _ (fun s x hs => jobsWF_addRefBy _ _ _ (jobsWF_delRefBy s _ _ hs))
+       exact h)
+
+theorem jobsWF_updConv (s : St) (a b) (st : Started) (h : JobsWF s) :
+    JobsWF (step s (.updConv a b) st).1 := by
+  simp only [step]
+  repeat' split
+  all_goals first
+    | exact h
+    | (dsimp only
+       apply jobsWF_startConverter
+       apply jobsWF_foldl _ (fun s x hs => jobsWF_attachConv s _ _ hs)
+       apply jobsWF_foldl _ (fun s x hs => jobsWF_detachConv s _ _ hs)
+       exact h)
+
+theorem jobsWF_markAdd (s : St) (a b) (st : Started) (h : JobsWF s) :
+    JobsWF (step s (.markAdd a b) st).1 := by
+  simp only [step]
+  repeat' split
+  all_goals first
+    | exact h
+    | (dsimp only
+       apply jobsWF_startConverter
+       apply jobsWF_startTagging
+       exact jobsWF_markUpdate _ _ _ _ h)
+
+theorem jobsWF_markDel (s : St) (a b) (st : Started) (h : JobsWF s) :
+    JobsWF (step s (.markDel a b) st).1 := by
+  simp only [step]
+  repeat' split
+  all_goals first
+    | exact h
+    | (dsimp only
+       apply jobsWF_startConverter
+       apply jobsWF_startTagging
+       exact jobsWF_markUpdate _ _ _ _ h)
+
+theorem jobsWF_delTag (s : St) (a) (st : Started) (h : JobsWF s) :
+    JobsWF (step s (.delTag a) st).1 := by
+  simp only [step]
+  repeat' split
+  all_goals first
+    | exact h
+    | (dsimp only
+       apply jobsWF_foldl _ (fun s x hs => jobsWF_delRefBy s _ _ hs)
+       apply jobsWF_tags
+       apply jobsWF_foldl _ (fun s x hs => jobsWF_detachConv s _ _ hs)
+       exact h)
+
+theorem jobsWF_viewOpen (s : St) (a) (st : Started) (h : JobsWF s) :
+    JobsWF (step s (.viewOpen a) st).1 := by
+  simp only [step]
+  repeat' split
+  all_goals first
+    | exact h
+    | exact jobsWF_getIndexesCopy _ _ h
+
+theorem jobsWF_viewRelease (s : St) (a) (st : Started) (h : JobsWF s) :
+    JobsWF (step s (.viewRelease a) st).1 := by
+  simp only [step]
+  repeat' split
+  all_goals first
+    | exact h
+    | exact jobsWF_release _ _ h
+
+theorem jobsWF_step (s : St) (e : Ev) (st : Started) (h : JobsWF s) : JobsWF (step s e st).1 := by
+  cases e with
+  | nop => exact h
+  | importPcaps a => exact jobsWF_importPcaps s a st h
+  | importDone a b c d e f => exact jobsWF_importDone s a b c d e f st h
+  | tagDone a b => exact jobsWF_tagDone s a b st h
+  | mergeDone a => exact jobsWF_mergeDone s a st h
+  | convertDone => exact jobsWF_convertDone s st h
+  | addTag a b c d => exact jobsWF_addTag s a b c d st h
+  | updQuery a b c => exact jobsWF_updQuery s a b c st h
+  | updColor a b => exact jobsWF_updColor s a b st h
+  | updName a b => exact jobsWF_updName s a b st h
+  | updConv a b => exact jobsWF_updConv s a b st h
+  | markAdd a b => exact jobsWF_markAdd s a b st h
+  | markDel a b => exact jobsWF_markDel s a b st h
+  | delTag a => exact jobsWF_delTag s a st h
+  | viewOpen a => exact jobsWF_viewOpen s a st h
+  | viewRelease a => exact jobsWF_viewRelease s a st h
+
 end Pk.Proofs.MgrSettle
